@@ -145,6 +145,12 @@ def cp_als(  # noqa: PLR0912,PLR0913,PLR0915
         optdims = np.arange(N)
     else:
         optdims = parse_one_d(optdims)
+    if (
+        np.any(optdims < 0)
+        or np.any(optdims >= N)
+        or np.unique(optdims).size != optdims.size
+    ):
+        assert False, "Optdims must be distinct modes of the tensor (in range(ndims))"
 
     # Error checking
     assert rank > 0, "Number of components requested must be positive"
